@@ -381,9 +381,9 @@ def scen_family(env, typ, chunk, nchunks, second=None, small=False, nburst=3, or
     scen_net(env, blocks, 2, nburst if second is None else 2, order_budget=order_budget)
 
 
-def scen_catalog(env, name, nburst=3, first_target=None, picky_input=None):
+def scen_catalog(env, name, nburst=3, first_target=None, picky_input=None, order_budget=10 ** 9):
     if name in CATALOG:
-        scen_net(env, CATALOG[name], 3, nburst, first_target=first_target, picky_input=picky_input)
+        scen_net(env, CATALOG[name], 3, nburst, first_target=first_target, picky_input=picky_input, order_budget=order_budget)
     else:
         blocks, fb = FEEDBACK[name]
         scen_net(env, blocks, 3, 2, feedback=fb, first_target=first_target, picky_input=picky_input)
@@ -429,14 +429,23 @@ def shards(tier):
         if tier == 'quick' and name in ('ladder', 'override-chain'):
             continue
         for ft in (0, 1, 2):
-            out.append({'name': f'catalog {name} first_target={ft}', 'scenario': 'scen_catalog',
-                        'params': {'name': name, 'nburst': 1 if tier == 'quick' else 2, 'first_target': ft}, 'cost': 30})
+            params = {'name': name, 'nburst': 1 if tier == 'quick' else 2, 'first_target': ft}
+            if name == 'ladder':
+                # five blocks with many reconvergent paths: sized by measurement (a burst of two changes with every
+                # evaluation order does not finish in an hour): one change, the first 6 order choices enumerated
+                params.update(nburst=1, order_budget=6)
+            out.append({'name': f'catalog {name} first_target={ft}', 'scenario': 'scen_catalog', 'params': params, 'cost': 30})
     # an output event of input 0 / 1 fails with EdzedUnknownEvent at the sender of the 'put' (no stop): still consistent
     for name, pk in (('chain', 0), ('diamond', 0), ('fb-and', 0)) if tier == 'quick' else \
             [(n, k) for n in list(CATALOG) + list(FEEDBACK) for k in (0, 1)]:
+        if name in FEEDBACK and FEEDBACK[name][1][1] == pk:
+            continue        # the feedback input is written by a CBlock inside the simulator task: an unknown event raised
+                            # there is an error of the circuit itself and does stop the simulation
+        params = {'name': name, 'nburst': 1 if tier == 'quick' else 2, 'picky_input': pk, 'first_target': pk}
+        if name == 'ladder':
+            params.update(nburst=1, order_budget=6)
         out.append({'name': f'catalog {name} unknown event behind input {pk}', 'scenario': 'scen_catalog',
-                    'params': {'name': name, 'nburst': 1 if tier == 'quick' else 2, 'picky_input': pk, 'first_target': pk},
-                    'cost': 30})
+                    'params': params, 'cost': 30})
     for name in CATALOG:
         out.append({'name': f'wait_init {name}', 'scenario': 'scen_wait_init', 'params': {'name': name}})
     if tier == 'thorough':
